@@ -41,7 +41,7 @@ static int ref_cmp (const L *u, const L *v, int n) { for (int i = n - 1; i >= 0;
 static int norm (const L *p, int n) { while (n > 0 && p[n - 1] == 0) n--; return n; }
 
 /* signed reference integer: sign + magnitude */
-typedef struct { int neg; int n; L d[2 * MAXN + 2]; } R;
+typedef struct { int neg; int n; L d[96]; } R;
 static void r_from_mpz (R *r, const mpz_t z) { int s = z->_mp_size; r->neg = s < 0; r->n = s < 0 ? -s : s; memcpy (r->d, z->_mp_d, r->n * sizeof (L)); }
 static int r_eq_mpz (const R *r, const mpz_t z)
 {
@@ -559,6 +559,81 @@ static int t_mpf_cmp (const char *f, int budget)
   printf ("PASS %d\n", budget / 4); return 0;
 }
 
+/* schoolbook reference product of magnitudes */
+static int ref_mul (L *w, const L *u, int un, const L *v, int vn)
+{
+  for (int i = 0; i < un + vn; i++) w[i] = 0;
+  for (int j = 0; j < vn; j++) { L c = 0; for (int i = 0; i < un; i++) { u128 p = (u128) u[i] * v[j] + w[i + j] + c; w[i + j] = (L) p; c = (L) (p >> 64); } w[un + j] = c; }
+  return norm (w, un + vn);
+}
+static int t_mpz_mul (const char *f, int budget)
+{
+  for (int it = 0; it < budget / 4; it++)
+    {
+      mpz_t w, u, v; mk_mpz (w, 3); mk_mpz (u, it % 5 == 0 ? 24 : 5); mk_mpz (v, it % 7 == 0 ? 20 : 4);
+      int al = rnd64 () % 5; mpz_ptr pu = u, pv = v;
+      if (al == 1) pu = w; else if (al == 2) pv = w; else if (al == 3) pv = pu; else if (al == 4) { pu = w; pv = w; }
+      if (al == 1 || al == 4) mpz_set (w, u);
+      if (al == 2) mpz_set (w, v);
+      if (it % 3 == 0) mpz_realloc2 (w, 64 * (abs (w->_mp_size) ? abs (w->_mp_size) : 1));            /* exact allocation: forces the reallocating paths */
+      R ru, rv; r_from_mpz (&ru, pu); r_from_mpz (&rv, pv);
+      static L prod[64]; int pn = ref_mul (prod, ru.d, ru.n, rv.d, rv.n);
+      mpz_mul (w, pu, pv);
+      int wn = abs (w->_mp_size);
+      int ok = wn == pn && (pn == 0 || ((w->_mp_size < 0) == (ru.neg != rv.neg))) && memcmp (w->_mp_d, prod, pn * sizeof (L)) == 0 && wn <= w->_mp_alloc;
+      if (ok && pu != w) ok = r_eq_mpz (&ru, pu);
+      if (ok && pv != w) ok = r_eq_mpz (&rv, pv);
+      if (!ok) { failed (f); printf (" alias=%d u:neg=%d", al, ru.neg); show ("", ru.d, ru.n > 6 ? 6 : ru.n); printf (" v:neg=%d", rv.neg); show ("", rv.d, rv.n > 6 ? 6 : rv.n); show_z ("got", w); printf ("\n"); return 1; }
+      mpz_clear (w); mpz_clear (u); mpz_clear (v);
+    }
+  printf ("PASS %d\n", budget / 4); return 0;
+}
+/* q,r of tdiv_qr checked by n == q*d + r, |r| < |d|, sgn r in {0, sgn n} with the reference arithmetic above */
+static int t_mpz_tdiv_qr (const char *f, int budget)
+{
+  for (int it = 0; it < budget / 4; it++)
+    {
+      mpz_t q, r, n, d; mk_mpz (q, 3); mk_mpz (r, 3); mk_mpz (n, 6); mk_mpz (d, 4);
+      if (mpz_sgn (d) == 0) mpz_set_si (d, it % 2 ? 5 : -5);
+      int al = rnd64 () % 7; mpz_ptr pn = n, pd = d;
+      if (al == 1) { mpz_set (q, n); pn = q; } else if (al == 2) { mpz_set (r, n); pn = r; } else if (al == 3) { mpz_set (q, d); pd = q; }
+      else if (al == 4) { mpz_set (r, d); pd = r; } else if (al == 5) { mpz_set (q, n); mpz_set (r, d); pn = q; pd = r; } else if (al == 6) { if (mpz_sgn (n) == 0) mpz_set_si (n, -7); pd = pn; }
+      if (it % 3 == 0) { mpz_realloc2 (q, 64 * (abs (q->_mp_size) ? abs (q->_mp_size) : 1)); mpz_realloc2 (r, 64 * (abs (r->_mp_size) ? abs (r->_mp_size) : 1)); }
+      R rn, rd; r_from_mpz (&rn, pn); r_from_mpz (&rd, pd);
+      mpz_tdiv_qr (q, r, pn, pd);
+      R rq, rr, prod, sum; r_from_mpz (&rq, q); r_from_mpz (&rr, r);
+      prod.n = ref_mul (prod.d, rq.d, rq.n, rd.d, rd.n); prod.neg = prod.n ? (rq.neg != rd.neg) : 0;
+      r_addsub (&sum, &prod, &rr, 0);
+      int ok = sum.n == rn.n && (sum.n == 0 || sum.neg == rn.neg) && memcmp (sum.d, rn.d, rn.n * sizeof (L)) == 0;
+      ok = ok && (rr.n < rd.n || (rr.n == rd.n && ref_cmp (rr.d, rd.d, rd.n) < 0)) && (rr.n == 0 || rr.neg == rn.neg);
+      ok = ok && abs (q->_mp_size) <= q->_mp_alloc && abs (r->_mp_size) <= r->_mp_alloc && (rq.n == 0 || q->_mp_d[rq.n - 1] != 0) && (rr.n == 0 || r->_mp_d[rr.n - 1] != 0);
+      if (!ok) { failed (f); printf (" alias=%d n:neg=%d", al, rn.neg); show ("", rn.d, rn.n); printf (" d:neg=%d", rd.neg); show ("", rd.d, rd.n); show_z ("q", q); show_z ("r", r); printf ("\n"); return 1; }
+      mpz_clear (q); mpz_clear (r); mpz_clear (n); mpz_clear (d);
+    }
+  printf ("PASS %d\n", budget / 4); return 0;
+}
+static int t_mpz_ui (const char *f, int budget)           /* add_ui sub_ui ui_sub com */
+{
+  for (int it = 0; it < budget; it++)
+    {
+      mpz_t w, u; mk_mpz (w, 4); mk_mpz (u, 4);
+      if (it % 4 == 0 && u->_mp_size) { int n = abs (u->_mp_size); for (int i = 0; i < n - 1; i++) u->_mp_d[i] = (it % 8) ? 0 : ~(L) 0; if (it % 3 == 0) u->_mp_d[n - 1] = 1; }
+      L v = pat (); if (it % 5 == 0 && abs (u->_mp_size) == 1) v = u->_mp_d[0] + (rnd64 () % 3) - 1;
+      int al = rnd64 () & 1; mpz_ptr pu = al ? w : u; if (al) mpz_set (w, u);
+      if (it % 3 == 0) mpz_realloc2 (w, 64 * (abs (w->_mp_size) ? abs (w->_mp_size) : 1));
+      R ru, rv, want; r_from_mpz (&ru, pu); rv.neg = 0; rv.n = v != 0; rv.d[0] = v;
+      if (!strcmp (f, "mpz_add_ui")) { r_addsub (&want, &ru, &rv, 0); mpz_add_ui (w, pu, v); }
+      else if (!strcmp (f, "mpz_sub_ui")) { r_addsub (&want, &ru, &rv, 1); mpz_sub_ui (w, pu, v); }
+      else if (!strcmp (f, "mpz_ui_sub")) { r_addsub (&want, &rv, &ru, 1); mpz_ui_sub (w, v, pu); }
+      else { R one; one.neg = 0; one.n = 1; one.d[0] = 1; R t; r_addsub (&t, &ru, &one, 0); want = t; want.neg = t.n ? !t.neg : 0; mpz_com (w, pu); }      /* ~x = -(x+1) */
+      int ok = r_eq_mpz (&want, w);
+      if (ok && !al) ok = r_eq_mpz (&ru, u);
+      if (!ok) { failed (f); printf (" alias=%d v=%#lx u:neg=%d", al, (unsigned long) v, ru.neg); show ("", ru.d, ru.n); show_z ("got", w); printf (" want:neg=%d", want.neg); show ("", want.d, want.n); printf ("\n"); return 1; }
+      mpz_clear (w); mpz_clear (u);
+    }
+  printf ("PASS %d\n", budget); return 0;
+}
+
 int main (int argc, char **argv)
 {
   if (argc < 4) { fprintf (stderr, "usage: native <function> <seed> <budget>\n"); return 2; }
@@ -571,6 +646,9 @@ int main (int argc, char **argv)
   if (!strcmp (f, "mpn_copyi") || !strcmp (f, "mpn_copyd") || !strcmp (f, "mpn_zero") || !strcmp (f, "mpn_com_n") || !strcmp (f, "mpn_neg_n") || !strcmp (f, "mpn_lshift") || !strcmp (f, "mpn_rshift")) return t_mpn_unary (f, budget);
   if (!strcmp (f, "mpn_cmp") || !strcmp (f, "mpn_zero_p") || !strncmp (f, "mpn_scan", 8) || !strcmp (f, "mpn_popcount") || !strcmp (f, "mpn_hamdist")) return t_mpn_pred (f, budget);
   if (!strcmp (f, "mpz_add") || !strcmp (f, "mpz_sub")) return t_mpz_aors (f, budget);
+  if (!strcmp (f, "mpz_mul")) return t_mpz_mul (f, budget);
+  if (!strcmp (f, "mpz_tdiv_qr")) return t_mpz_tdiv_qr (f, budget);
+  if (!strcmp (f, "mpz_add_ui") || !strcmp (f, "mpz_sub_ui") || !strcmp (f, "mpz_ui_sub") || !strcmp (f, "mpz_com")) return t_mpz_ui (f, budget);
   if (!strcmp (f, "mpz_neg") || !strcmp (f, "mpz_abs") || !strcmp (f, "mpz_set") || !strcmp (f, "mpz_swap")) return t_mpz_copy (f, budget);
   if (!strcmp (f, "mpz_cmp") || !strcmp (f, "mpz_cmpabs")) return t_mpz_cmp (f, budget);
   if (!strcmp (f, "mpz_tstbit") || !strcmp (f, "mpz_scan0") || !strcmp (f, "mpz_scan1")) return t_mpz_bits (f, budget);
